@@ -397,7 +397,7 @@ func (p *c15) runSQL() *core.CaseResult {
 
 func (p *c15) Meta() core.Meta {
 	return core.Meta{
-		Rule: "one case per value a of the finite domain D (every Go numeric type x {min,-1,0,1,max of the narrow types, +-2^53 and -2^63, 2^63, 3*2^62 for 64-bit, fractions} and strings); the case evaluates Compare on all pairs (a,b),(b,a) and all triples (a,b,c) of one kind; every case is non-trivial (each value meets values of every other type); plus a purity case (all pairs of an extended domain in three evaluation orders) and an SQL case (ORDER BY ASC/DESC over every permutation of 5-element mixed columns must follow Compare's order)",
+		Rule: "one case per value a of the finite domain D (every Go numeric type x {min,-1,0,1,max of the narrow types, +-2^53 and -2^63, 2^63, 3*2^62 for 64-bit, fractions} and strings); the case evaluates Compare on all pairs (a,b),(b,a) and all triples (a,b,c) of one kind; every case is non-trivial (each value meets values of every other type); plus a purity case (all pairs of an extended domain in three evaluation orders) and an SQL case (ORDER BY ASC/DESC over every permutation of 5-element mixed columns must follow Compare's order); one changed-between-executions case (4 queries x every ordered pair of value pairs over 7 mixed values changed in place between two executions of one Query, against a fresh Query)",
 		Assumptions: []string{
 			"numbers are compared as exact rationals (big.Rat); strings bytewise; number vs string by the number's %v text, abstaining when %v is not plain decimal notation",
 			"values beyond +-2^53 in 64-bit types are outside the property ('exactly-representable range')",
